@@ -72,6 +72,7 @@ int main(void)
 		V_WITNESS("hit");
 	} else if (vin_path[0] == 's') {
 		V_ASSERT(si->opts[0].validcb == vcb, "[C14] registering by path on a single section sets the callback of its one instance");
+		V_ASSERT(ssub[0].validcb == vcb, "[C14] registering by path on a single section also reaches the declarations a re-created instance is copied from");
 		V_WITNESS("hit");
 	} else {
 		V_ASSERT(msub[0].validcb == NULL && ssub[0].validcb == NULL && mi->opts[0].validcb == NULL && si->opts[0].validcb == NULL, "[C14] registering by an unknown path sets nothing");
